@@ -51,8 +51,10 @@ Definition unfrozen_by (b f amt : Z) : Z := Z.max 0 (amt - (b - f)).
 (* the collaborators' answers during one call *)
 Record oracle := mkOracle {
   o_verified : list addr;              (* verify_identity(a) returns iff a is listed, else panics *)
-  o_can_transfer : bool;               (* answer of can_transfer *)
-  o_can_create : bool;                 (* answer of can_create *)
+  o_can_transfer : bool;               (* can_transfer answers `true`; false = it answers false OR does not answer
+                                          (raises an error, traps, returns a non-bool): the token calls
+                                          `client.can_transfer(..)`, so either way the call fails as a whole *)
+  o_can_create : bool;                 (* likewise can_create *)
   o_recovery : list (addr * addr)      (* recovery_target(old) = alist_get old *)
 }.
 Definition idv_ok (o : oracle) (a : addr) : bool := existsb (N.eqb a) (o_verified o).
@@ -372,3 +374,23 @@ Definition run_with tf (hc : hostcfg) (s : state) (cs : list call) : state :=
   fold_left (fun s c => fst (step_with tf hc s c)) cs s.
 Definition run := run_with transfer_from.
 Definition run_prefix := run_with transfer_from_prefix.
+
+(* ------------------------------------------------------------------ *)
+(* MUXED DESTINATIONS.  The entry point `FungibleToken::transfer(from, to: MuxedAddress, amount)`
+   of an RWA token contract dispatches to `<RWA as ContractOverrides>::transfer`, whose destination
+   is either a plain address or an (account) address carrying a 64-bit multiplexing id.  The
+   override drops the id - `RWA::transfer(e, from, &to.address(), amount)` - so the id has no
+   influence whatsoever on gates, balances or notifications: [Transfer from to amt] above IS that
+   entry point, for every id.  [transfer_entry] writes it out; the harness sends destinations of
+   both kinds (the id is kept in the trace, see [IMux] in Run/C04Token.v). *)
+Inductive dest := Plain (a : addr) | Muxed (a : addr) (id : Z).
+Definition dest_addr (d : dest) : addr := match d with Plain a => a | Muxed a _ => a end.
+(* <RWA as ContractOverrides>::transfer *)
+Definition transfer_entry (auths : list addr) (o : oracle) (from : addr) (to : dest) (amt : Z) (s : state) : res state :=
+  transfer auths o from (dest_addr to) amt s.
+(* the call term of a transfer whose destination was sent as a muxed address with id [id] *)
+Definition mux_op (id : Z) (o : op) : op :=
+  match o with
+  | Transfer f t a => Transfer f (dest_addr (Muxed t id)) a
+  | o' => o'
+  end.
